@@ -48,18 +48,11 @@ func encHTMLElems(c *hx.Ctx, els []htmldoc.VerifElement, ext *extSet) (string, b
 				c.Count("docmodel html element table nil")
 				continue
 			}
-			rows := make([][]string, len(e.Table.Rows))
-			for i, row := range e.Table.Rows {
-				for _, cell := range row {
-					rows[i] = append(rows[i], cell.Text)
-				}
-			}
-			s, ok := encRows(rows)
-			if !ok {
-				return "", false
-			}
-			es = append(es, "t="+s)
+			es = append(es, "t="+encHTable(e.Table.Rows))
 			c.Count("docmodel html element table")
+			if htmlSpans(e.Table.Rows) {
+				c.Count("docmodel html element table with colspan/rowspan")
+			}
 		case htmldoc.ElementCode:
 			es = append(es, "c="+hx.HexS(e.Text))
 			c.Count("docmodel html element code")
